@@ -374,12 +374,13 @@ class Piece:
         self.ops.append(('body_start', None, text))
         return self
 
-    def before(self, anchor, text, nth=0):
-        self.ops.append(('before', (anchor, nth), text))
+    def before(self, anchor, text, nth=0, optional=False):
+        """optional=True: a proof hint whose anchor statement may legitimately be absent (then the hint is skipped and the proof decides)"""
+        self.ops.append(('before', (anchor, nth, optional), text))
         return self
 
-    def after(self, anchor, text, nth=0):
-        self.ops.append(('after', (anchor, nth), text))
+    def after(self, anchor, text, nth=0, optional=False):
+        self.ops.append(('after', (anchor, nth, optional), text))
         return self
 
     def body_end(self, text):
@@ -389,7 +390,7 @@ class Piece:
 
     def insert_inline(self, anchor, text, nth=0):
         """insert annotation text immediately after the nth code occurrence of anchor (e.g. a closure's `-> (r: T) ensures ..`)."""
-        self.ops.append(('inline', (anchor, nth), text))
+        self.ops.append(('inline', (anchor, nth, False), text))
         return self
 
     def before_tail(self, text):
@@ -507,8 +508,10 @@ class Piece:
             elif op == 'before_tail':
                 add(_line_start(text, tail_start(text, code, bo, bc)), t + '\n')
             else:
-                anchor, nth = arg
+                anchor, nth, optional = arg
                 idxs = [mm.start() for mm in re.finditer(re.escape(anchor), text) if code[mm.start()]]
+                if len(idxs) <= nth and optional:
+                    continue
                 if len(idxs) <= nth:
                     raise LostAnchor('splice anchor %r (#%d) not found in %s' % (anchor, nth, self.label))
                 p = idxs[nth]
